@@ -147,6 +147,16 @@ CLAIMS["C06"]["text"] = ("Proof: (series) interp_knot/between/outside/single/ass
     "compared with the pipeline model; population aggregations are recomputed independently from the interaction data.")
 CLAIMS["C06"]["technique"] = "Lean 4 theorems about the TimeSeries interpolation model and the parameter-pipeline decision logic (Atomica.Series, Atomica.Params) + correspondence with TimeSeries.interpolate and with every stored parameter value of processed models (modes A, C)"
 
+CLAIMS["C09"] = dict(
+    technique="Lean 4 causality theorems about the engine run and a scenario/gating model (Atomica.Scenario) + correspondence over paired baseline/intervention runs (modes A, C, E)",
+    text="Proof: run_causal / closed_causal / process_causal (parameter policies that agree before index n give identical stocks and flows before n, for any end year, including the start-up flush), end_extension / grid_extension "
+         "(the longer run restricted to the shorter grid is the shorter run), gating_before_start / gating_after_stop(_data), previous_prefix_many (stepped series that state the value in force), scenario_prefix / scenario_agreeAt "
+         "(ParameterScenario.get_parset keeps the baseline at every grid time before Y and does not skip the function there), and the no_effect_before_start corollaries per intervention kind. Baseline and intervention runs are paired on "
+         "generated models and library demos for program start/stop years, spending/capacity/coverage overwrites, parameter scenarios (linear and stepped; data, function, transfer and interaction parameters), Y on and off the grid, "
+         "and every output before Y must be identical; end-year extension is compared to 1e-12.",
+    note="precompute/dynamic classification of parameters is not modelled (pairs where it differs are counted and still compared exactly); pchip/callable smoothing outside the model.",
+    design="8.C09")
+
 NA_DEFAULT = "not yet claimed: model, theorems and correspondence under construction (see DESIGN.md section 8)"
 NA = {}
 
